@@ -68,6 +68,10 @@ def unit_source_hash(file: str, qualname: str) -> tuple[str, int, int]:
     return hashlib.sha256(seg.encode()).hexdigest(), fd.lineno, fd.end_lineno
 
 
+class _CapturesOnly(Exception):
+    pass
+
+
 class UnitResult:
     def __init__(self, contract):
         self.contract = contract
@@ -219,6 +223,20 @@ class Executor(HeapMixin, ExprMixin, CallMixin, ContractMixin, StmtMixin):
             loops = [n for n in ast.walk(fd) if isinstance(n, (ast.For, ast.While))]
             loops.sort(key=lambda n: (n.lineno, n.col_offset))
             self.loop_ordinals = {id(n): i for i, n in enumerate(loops)}
+            from .capture import analyse as _capture
+
+            for lab, holds, line, note in _capture(fd):
+                fake = type("N", (), {"lineno": line})()
+                st_c = State()
+                st_c.top = self.top0
+                st_c.hbase = self.H.base
+                if holds:
+                    self.obligations.append(Obligation(c.qualname, "capture", lab + "@entry", [], z3.BoolVal(True), line, note=note))
+                else:
+                    self.obligations.append(Obligation(c.qualname, "capture", lab + "@entry", [], z3.BoolVal(False), line, note=note))
+            if c.captures_only:
+                res.paths = 1
+                raise _CapturesOnly()
             if ast.get_docstring(fd):
                 self.dropped.add("docstring")
             self.dropped.add("type annotations")
@@ -276,6 +294,8 @@ class Executor(HeapMixin, ExprMixin, CallMixin, ContractMixin, StmtMixin):
             res.n_return_paths = n_ret
             if not outs and not res.vacuous:
                 raise Unsupported("no feasible path reaches the end of the unit (inconsistent context: contracts or requires contradict each other)")
+        except _CapturesOnly:
+            pass
         except Unsupported as ex:
             res.unsupported = str(ex)
         except z3.Z3Exception as ex:
